@@ -47,7 +47,7 @@ PROPS = {
           "is zero or the quotient exceeds int64, and out*toSpot <= in*fromSpot. chain level: 2.0.2+ chains with many ungraded/under-filled blocks, timeline chains and 2.0.5 chains (PIP-10 window 3-8, prices moving 8% per block) "
           "run next to the reference model: a conversion submitted at h must execute at the first later rated height with floor(in*src/dst) at THAT block's recorded rates (averages over the window ending at the last rated height before it). "
           "Non-trivial = convertible tuple / chain with executed conversions; distinct by tuple or chain.",
-          quick=(4, 40), thorough=(16, 3000), timeout=(300, 2400)),
+          quick=(4, 40), thorough=(16, 1500), timeout=(300, 3000)),
  "C01": P("TestC01", "exploration",
           "rapid generates 2.0.2+ chains crossing two snapshot heights with 2-5 holders of exactly equal stake (identical conversions executed at the same rates; total stake below "
           "or above the 4500x144 PEG cap so that the proportional dust is non-zero), other holders, transfers between the snapshots, plus general chains; every case is replayed "
